@@ -636,16 +636,16 @@ class Inliner:
 
     def _hoist_nested(self, s: ast.stmt, cls, caller_q) -> Optional[List[ast.stmt]]:
         """stmt(..., helper(args), ...)  ->  _sv_argN = <inlined helper>; stmt(..., _sv_argN, ...)"""
-        if not isinstance(s, (ast.Expr, ast.Assign, ast.AugAssign, ast.Return, ast.AnnAssign, ast.Raise)):
+        if not isinstance(s, (ast.Expr, ast.Assign, ast.AugAssign, ast.Return, ast.AnnAssign, ast.Raise, ast.For)):
             return None
-        top = s.exc if isinstance(s, ast.Raise) else s.value
+        top = s.exc if isinstance(s, ast.Raise) else (s.iter if isinstance(s, ast.For) else s.value)
         if top is None:
             return None
         found = []
         for x in ast.walk(top):
             if isinstance(x, (ast.Lambda, ast.ListComp, ast.SetComp, ast.DictComp, ast.GeneratorExp, ast.IfExp, ast.BoolOp)):
                 continue
-            if isinstance(x, ast.Call) and x is not top and self._target(x, cls) is not None:
+            if isinstance(x, ast.Call) and (x is not top or isinstance(s, ast.For)) and self._target(x, cls) is not None and not self._target(x, cls)[1].is_gen:
                 # not inside a comprehension / lambda / conditional sub-expression
                 found.append(x)
         guarded = set()
